@@ -176,7 +176,8 @@ def r_seek(body):
 
 def r_subst(text, rules, where):
     """Anchored textual rewrites listed in unit.toml: each {rule, from, to}; `from` is matched after whitespace
-    normalisation and must occur exactly `count` (default 1) times, otherwise the anchor is lost (UNDECIDED).
+    normalisation and must occur exactly `count` (default 1) times, otherwise the anchor is lost (UNDECIDED);
+    `count = "any"` (pure renames of a callee path only) rewrites however many occurrences there are.
     Used only for the desugarings of the closed list that are not implemented as general transformers
     (R-optmap, R-tryfold, R-iife, R-seek); the evidence records before/after verbatim."""
     log = []
@@ -187,7 +188,7 @@ def r_subst(text, rules, where):
         rx = re.compile(r"\s*".join(parts))
         hits = list(rx.finditer(text))
         cnt = r.get("count", 1)
-        if len(hits) != cnt:
+        if cnt != "any" and len(hits) != cnt:
             raise AnchorLost("%s: rewrite anchor for %s matched %d times (expected %d): %s" % (
                 where, r.get("rule", "?"), len(hits), cnt, frm[:80]))
         text = rx.sub(lambda _m: r["to"], text)
